@@ -14,6 +14,8 @@ pub enum FirstState {
     Idle,
     MidTransaction,
     AfterCompaction,
+    /// a thread keeps committing through the first handle while second opens are attempted
+    Committing,
 }
 
 #[derive(Debug, Clone, Serialize, Deserialize)]
@@ -178,7 +180,76 @@ fn test(c: &Case, obs: &mut Obs) -> CaseResult {
         FirstState::Idle => "first-idle",
         FirstState::MidTransaction => "first-mid-transaction",
         FirstState::AfterCompaction => "first-after-compaction",
+        FirstState::Committing => "first-committing",
     });
+    if let FirstState::Committing = c.state {
+        // the first handle commits in a loop (one node per transaction) while this thread keeps
+        // trying to open a second handle; every attempt must be refused or block, and every
+        // acknowledged commit must still be there after the first handle is closed and reopened
+        let db = std::sync::Arc::new(r.db.take().unwrap());
+        let stop = std::sync::Arc::new(std::sync::atomic::AtomicBool::new(false));
+        let (db2, stop2) = (db.clone(), stop.clone());
+        let first_ext = r.model.next_ext;
+        let writer = std::thread::spawn(move || {
+            let mut acked = 0u64;
+            let mut err = None;
+            for i in 0..400u64 {
+                if stop2.load(std::sync::atomic::Ordering::SeqCst) && i >= 40 {
+                    break;
+                }
+                let mut tx = db2.begin_write();
+                let label = match tx.get_or_create_label("A") {
+                    Ok(l) => l,
+                    Err(e) => {
+                        err = Some(e.to_string());
+                        break;
+                    }
+                };
+                if let Err(e) = tx.create_node(first_ext + i, label) {
+                    err = Some(e.to_string());
+                    break;
+                }
+                match tx.commit() {
+                    Ok(()) => acked += 1,
+                    Err(e) => {
+                        err = Some(e.to_string());
+                        break;
+                    }
+                }
+            }
+            (acked, err)
+        });
+        let mut opened = false;
+        for _ in 0..12 {
+            let a = match c.second {
+                Second::SameProcessCApi => try_open_in_thread(base.clone(), true),
+                _ => try_open_in_thread(base.clone(), false),
+            };
+            if a == Attempt::Opened {
+                opened = true;
+                break;
+            }
+        }
+        stop.store(true, std::sync::atomic::Ordering::SeqCst);
+        let (acked, werr) = writer.join().map_err(|_| Failure::new("harness-writer-panicked", "writer thread panicked"))?;
+        obs.set_nontrivial(true);
+        obs.count("commits_during_open_attempts", acked);
+        if opened {
+            fail!(format!("second-handle-opened:{which}:while-committing"), "a second handle opened while the first handle was committing");
+        }
+        if let Some(e) = werr {
+            fail!("first-handle-commit-failed-during-second-open", "a commit of the first handle failed while a second open was attempted: {e}");
+        }
+        let db = std::sync::Arc::try_unwrap(db).map_err(|_| Failure::new("harness", "db still shared"))?;
+        drop(db);
+        let mut m = r.model.clone();
+        for _ in 0..acked {
+            m.create_node(&["A".to_string()]);
+        }
+        r.model = m;
+        r.db = Some(hist::open_db(&base).map_err(|f| Failure::new(format!("reopen-after-contended-commits:{}", f.signature), f.message))?);
+        return r.check().map_err(|f| Failure::new(format!("commits-lost-by-refused-second-open:{}", f.signature), format!("{acked} commits were acknowledged while second opens were refused; after reopen: {}", f.message)));
+    }
     let db = r.db.take().unwrap();
     let attempt = {
         let _tx = if let FirstState::MidTransaction = c.state { Some(db.begin_write()) } else { None };
@@ -241,7 +312,7 @@ pub fn run(ctx: &mut RunCtx) {
         || {
             (
                 hist::history(&p),
-                prop_oneof![Just(FirstState::Idle), Just(FirstState::MidTransaction), Just(FirstState::AfterCompaction)],
+                prop_oneof![Just(FirstState::Idle), Just(FirstState::MidTransaction), Just(FirstState::AfterCompaction), Just(FirstState::Committing)],
                 prop_oneof![3 => Just(Second::SameProcessRust), 2 => Just(Second::SameProcessCApi), 2 => Just(Second::ChildOpens), 2 => Just(Second::ChildHolds)],
             )
                 .prop_map(|(ops, state, second)| Case { ops, state, second })
